@@ -193,28 +193,41 @@ KeyCount(s, q, c) ==
 (*   "formatted"   emitted in walk order, a later pass (gofmt) reorders     *)
 (*   "map"         emitted in walk order, as is                             *)
 (* Layer A, the property: the contribution of every site is a function of  *)
-(* the key set, i.e. no site is of kind "map".  Layer B, the transcription *)
-(* of thriftgo at the pinned commit: ImplKind.                             *)
+(* the key set, i.e. no site is of kind "map".                             *)
+(* Layer B, the transcription of thriftgo as it is now: ImplKind.          *)
+(* Layer P, the transcription of thriftgo at the pinned commit (df545ca):  *)
+(* PinnedKind.  It differs from B at the three places where the check      *)
+(* found the real generator leaking its walk order; they were repaired     *)
+(* (/repo d1ec719, 4c31690, a2cf66e).  P is kept so that TLC keeps showing  *)
+(* that the model predicts exactly those divergences (a self-test of the   *)
+(* model, not a statement about the code).                                 *)
 (***************************************************************************)
 Kinds == {"source", "sorted", "commutative", "formatted", "map"}
-ImplKind(s, c) ==
+PinnedKind(s, c) ==
   CASE ObjectOf(s) = "refl" -> "map"            \* meta.write: reflect MapRange, written as walked, then gzip
     [] s = "go.imports"     -> "sorted"         \* text/template ranges over a map in key order
     [] s = "go.stdlibs"     -> "commutative"    \* namespace.Add of distinct names
     [] s = "go.throws"      -> "sorted"         \* ServiceThrows: map, then sort.Slice
     [] s = "fastgo.imports" -> IF Has(c, "no_fmt") THEN "map" ELSE "formatted"   \* codewriter.Imports
     [] s = "fastgo.fields"  -> "sorted"         \* getSortedFields
-    [] s = "fm.replacer"    -> "commutative"    \* strings.NewReplacer over keys none of which is a prefix of another
+    [] s = "fm.replacer"    -> "commutative"    \* strings.NewReplacer over keys none of which is a prefix of another (Replacer.tla)
     [] s = "plugin.names"   -> "map"            \* parser.Thrift.FastAppend ranges over Name2Category
     [] s = "persist.jobs"   -> "commutative"    \* concurrent writes of distinct paths (spec/Persist, C19)
     [] OTHER -> "source"
+ImplKind(s, c) ==
+  CASE ObjectOf(s) = "refl" -> "sorted"         \* d1ec719: meta.write orders map entries by their encoded bytes
+    [] s = "fastgo.imports" -> "sorted"         \* a2cf66e: codewriter.Imports sorts both groups
+    [] s = "plugin.names"   -> "sorted"         \* 4c31690: FastAppend walks Name2Category in key order
+    [] OTHER -> PinnedKind(s, c)
 
-Unordered(s, c) == ImplKind(s, c) # "source"
+Unordered(s, c) == PinnedKind(s, c) # "source"
 
 \* the sites of (q, c) at which an unordered collection of two or more keys is walked
 Reached(q, c) == {s \in Sites : Active(s, c) /\ KeyCount(s, q, c) >= 2 /\ Unordered(s, c)}
 \* layer B's prediction: sites at which thriftgo leaks the walk order into the output
 Leaky(q, c) == {s \in Reached(q, c) : ImplKind(s, c) = "map"}
+\* the same for the pinned commit
+LeakyPinned(q, c) == {s \in Reached(q, c) : PinnedKind(s, c) = "map"}
 
 \* which objects a run produces
 Produced(c) == {"code", "tree"}
